@@ -850,7 +850,7 @@ class Walker:
 
     def s_If(self, st: ast.If):
         c = self.expr(st.test)
-        sc = T.strip(c)
+        sc = T.fuse(T.strip(c))
         if sc[0] == "const" and not isinstance(st.test, ast.Constant):
             # a named constant (a module-level switch introduced later): only the live branch exists
             return self.block(st.body if sc[1] else st.orelse)
@@ -1121,6 +1121,19 @@ def _set_tables(prog: Program) -> None:
         if common:
             d[nm] = common
     T.DEFAULTS = d
+    pd: Dict[str, Tuple[Any, ...]] = {}
+    for f in prog.all_functions():
+        if isinstance(f.node, ast.Lambda) or f.cls is not None or f.node.args.vararg is not None:
+            continue
+        a = f.node.args
+        names = [x.arg for x in a.posonlyargs + a.args]
+        dv = [T._NO_DEFAULT] * len(names)
+        for i, dflt in enumerate(a.defaults):
+            if isinstance(dflt, ast.Constant):
+                dv[len(names) - len(a.defaults) + i] = dflt.value
+        if any(x is not T._NO_DEFAULT for x in dv):
+            pd[f.qualname] = tuple(dv)
+    T.POS_DEFAULTS = pd
     # module-level lookup tables: displays with constant keys whose values are names, never modified afterwards
     tabs: Dict[str, Dict[Any, Term]] = {}
     stored_attrs = set()
@@ -1419,6 +1432,13 @@ def derived_fields(prog: Program, ci: Any) -> Dict[str, Term]:
             for n in ast.walk(f2.node):
                 if isinstance(n, ast.Attribute) and n.attr == f and isinstance(n.ctx, (ast.Store, ast.Del)):
                     return True
+                # ... or changed in place (an entry assigned / deleted, a mutating method called on it)
+                if isinstance(n, ast.Subscript) and isinstance(n.ctx, (ast.Store, ast.Del)) and isinstance(n.value, ast.Attribute) and n.value.attr == f:
+                    return True
+                if isinstance(n, ast.Call) and isinstance(n.func, ast.Attribute) and n.func.attr in _MUTATORS and isinstance(n.func.value, ast.Attribute) and n.func.value.attr == f:
+                    return True
+                if isinstance(n, ast.AugAssign) and isinstance(n.target, ast.Attribute) and n.target.attr == f:
+                    return True
                 if f2.cls is ci and isinstance(n, ast.Call) and isinstance(n.func, ast.Attribute) and n.func.attr in ("__setattr__", "setattr") and len(n.args) >= 2 and isinstance(n.args[-2], ast.Constant) and n.args[-2].value == f:
                     return True
         return False
@@ -1435,10 +1455,13 @@ def derived_fields(prog: Program, ci: Any) -> Dict[str, Term]:
             continue
         val = v
         for g, vg in sorted(base.items(), key=lambda kv: -len(repr(kv[1]))):
-            val = T.replace(val, {vg: ("attr", T.var("§self"), g)})
+            if any(x[0] == "var" for x in T.subterms((vg,))):          # (a constant is not "the value of that field")
+                val = T.replace(val, {vg: ("attr", T.var("§self"), g)})
         val = T.replace(val, {me: T.var("§self")})
         if any(x[0] == "var" and x != T.var("§self") for x in T.subterms((val,))):
             continue
+        if not any(x[0] == "attr" and x[1] == T.var("§self") for x in T.subterms((val,))):
+            continue            # not computed from other fields: an ordinary field with an initial value
         out[f] = val
     ci._derived = out
     return out
@@ -2056,7 +2079,21 @@ def cold_cache(prog: Program, fi: FuncInfo, s: Summary) -> Summary:
     out: List[Event] = []
     consts: Dict[Term, Term] = {}          # opaque locals that currently hold a constant (the empty cache read into a local)
     decided: Dict[Term, bool] = {}         # tests decided at the moment they were made
+    missed: Set[int] = set()               # try blocks whose body ended in the KeyError of a lookup in the empty cache
+    EMPTY = ("dict", ())
+
+    def plain_key(k: Term) -> bool:
+        k = T.strip(k)
+        return k in params or k[0] == "const" or (k[0] == "tuple" and all(plain_key(z) for z in k[1]))
+
     for e in s.events:
+        if any((tid, "body") in e.tries for tid in missed):
+            continue                       # after the KeyError: not reached
+        if e.kind == "test" and e.term[0] == "except" and any((tid, "handler") in e.tries for tid in missed):
+            continue
+        if missed and any(t[0] in missed and t[1] == "handler" for t in e.tries):
+            e = Event(e.idx, e.kind, e.term, e.raw, e.node, e.stmt, e.guards, e.iters, tuple(t for t in e.tries if not (t[0] in missed and t[1] == "handler")), e.awaited, e.extra)
+
         def inst(t):
             t = T.replace(T.replace(t, forwarded), subst)
             return T.replace(t, consts) if consts else t
@@ -2082,6 +2119,16 @@ def cold_cache(prog: Program, fi: FuncInfo, s: Summary) -> Summary:
                 dead = True
                 break
         if dead:
+            continue
+        # `try: return self._cache[key]  except KeyError: ...`: the lookup in the empty cache misses
+        lookups = [x for x in T.subterms((T.strip(term),)) if x[0] == "idx" and x[1] == EMPTY]
+        if lookups:
+            tids = [tid for tid, role in e.tries if role == "body"]
+            handled = [h for h in s.events if tids and h.kind == "test" and h.term[0] == "except" and (tids[-1], "handler") in h.tries
+                       and T.show(h.term[1]).rsplit(".", 1)[-1] in ("KeyError", "LookupError", "Exception")]
+            if not tids or not handled or not all(plain_key(x[2]) for x in lookups):
+                return s
+            missed.add(tids[-1])
             continue
         if e.kind == "bind" and e.term[1][0] == "var":
             v = T.strip(term[2])
